@@ -181,6 +181,40 @@ def gen_chain(rng, p_timeout=0.5, p_await=0.8, p_parallel=0.0, nb=(1, 2), maxh=(
     return sc
 
 
+def gen_deep(rng, **_):
+    """a 3-4 level chain of awaits on one or two serial buses in which a middle level's timeout fires while the first of the
+    leaf's serial handlers is still running (so later ones are still pending), with unrelated events arriving from outside"""
+    n = rng.randint(1, 2)
+    depth = rng.choice([3, 4, 4])
+    order = ['A', 'B', 'C', 'D'][:depth]
+    sc = {'buses': [{'parallel': False, 'maxh': 50, 'wal': False} for _ in range(n)],
+          'types': {t: {'timeout': None} for t in 'ABCD'}, 'handlers': [], 'tasks': []}
+    tl = rng.randrange(1, depth - 1)               # the level whose handler times out: neither root nor leaf
+    sc['types'][order[tl]]['timeout'] = rng.choice([33 / 128, 65 / 128])
+    home = {t: rng.randrange(n) for t in 'ABCD'}
+    for li, t in enumerate(order):
+        if li < depth - 1:
+            prog = [['dispatch', home[order[li + 1]], order[li + 1], 0]]
+            if rng.random() < 0.3:
+                prog.append(['sleep', 1 / 64])
+            prog.append(['await', 0])
+            if rng.random() < 0.3:
+                prog.append(['sleep', 1 / 64])
+            sc['handlers'].append({'bus': home[t], 'key': t, 'kind': 'async', 'prog': prog})
+            if rng.random() < 0.25:
+                sc['handlers'].append({'bus': home[t], 'key': t, 'kind': rng.choice(['async', 'sync']), 'prog': []})
+        else:
+            for j in range(rng.choice([1, 2, 2, 3])):
+                d = rng.choice([3 / 8, 3 / 4]) if j == 0 else rng.choice([0, 1 / 64, 3 / 8])
+                sc['handlers'].append({'bus': home[t], 'key': t, 'kind': 'async', 'prog': [['sleep', d]]})
+    sc['tasks'].append([['dispatch', home['A'], 'A', 0], ['await', 0]])
+    other = [['sleep', rng.choice([1 / 64, 9 / 64, 17 / 64, 35 / 64])], ['dispatch', rng.randrange(n), rng.choice(order), 0]]
+    if rng.random() < 0.5:
+        other += [['sleep', rng.choice([1 / 64, 17 / 64])], ['dispatch', rng.randrange(n), rng.choice(order), 1]]
+    sc['tasks'].append(other)
+    return sc
+
+
 def gen_idle(rng, **_):
     """wait_until_idle() racing a sequential producer (`await bus.dispatch(...)` in a loop) at every phase offset,
     counted in zero-sleeps, plus external bursts: the re-check loop of wait_until_idle is exercised"""
